@@ -105,6 +105,14 @@ func runTarjan(c *Ctx) {
 				if c2.Common().StaticCallee() == cal {
 					w, entry = cal, ci
 				}
+				// the recursion may run through a step helper that calls back
+				if h := c2.Common().StaticCallee(); h != nil && h != cal && p.InTarget(h) {
+					for _, c3 := range core.Calls(h) {
+						if c3.Common().StaticCallee() == cal {
+							w, entry = cal, ci
+						}
+					}
+				}
 			}
 		}
 	}
@@ -220,15 +228,66 @@ func runTarjan(c *Ctx) {
 	// T2b: visited successor on the stack: low = min(low, index[succ]), guarded by inStack(succ)
 	recOK, stackOK := false, false
 	var succ ssa.Value
+	// fold sites: `low = min(low, X)` in the worker itself, or `low = step(…, low)` where the private step helper
+	// returns its low parameter unchanged or min(low parameter, X); values of the helper are read through the binding
+	// of its parameters at the call site
+	type foldSite struct {
+		mc   *ssa.Call
+		bind func(ssa.Value) ssa.Value
+	}
+	var folds []foldSite
+	ident := func(v ssa.Value) ssa.Value { return v }
+	stepOK := true
 	for _, e := range low.Edges {
-		mc, ok := isMinCall(p, e)
+		if e == idxV {
+			continue // the seed: the vertex's own index
+		}
+		if mc, ok := isMinCall(p, e); ok {
+			folds = append(folds, foldSite{mc, ident})
+			continue
+		}
+		cl, ok := e.(*ssa.Call)
 		if !ok {
 			continue
 		}
+		h := cl.Common().StaticCallee()
+		if h == nil || h == w || !p.InTarget(h) || len(h.Blocks) == 0 || len(h.Params) != len(cl.Common().Args) {
+			continue
+		}
+		c.R.Func(core.FuncName(h))
+		bind := func(v ssa.Value) ssa.Value {
+			if prm, ok := core.Strip(v).(*ssa.Parameter); ok && prm.Parent() == h {
+				for i, q := range h.Params {
+					if q == prm {
+						return cl.Common().Args[i]
+					}
+				}
+			}
+			return v
+		}
+		for _, r := range core.Returns(h) {
+			if len(r.Results) != 1 {
+				stepOK = false
+				continue
+			}
+			for _, src := range core.Sources(r.Results[0]) {
+				if bind(src) == ssa.Value(low) {
+					continue // unchanged low-link
+				}
+				if mc, ok := isMinCall(p, src); ok {
+					folds = append(folds, foldSite{mc, bind})
+					continue
+				}
+				stepOK = false // the step helper returns something that is not a fold of the low-link
+			}
+		}
+	}
+	for _, fs := range folds {
+		mc, bind := fs.mc, fs.bind
 		a, b := mc.Common().Args[0], mc.Common().Args[1]
 		other := b
-		if a != ssa.Value(low) {
-			if b != ssa.Value(low) {
+		if bind(a) != ssa.Value(low) {
+			if bind(b) != ssa.Value(low) {
 				continue
 			}
 			other = a
@@ -241,7 +300,7 @@ func runTarjan(c *Ctx) {
 					if lk, ok := l.X.(*ssa.Lookup); ok && isIndexMap(lk.X) && lk.Index == s {
 						if k, ok := core.ConstInt(l.Y); ok && k == 0 {
 							recOK = true
-							succ = s
+							succ = bind(s)
 						}
 					}
 				}
@@ -252,7 +311,7 @@ func runTarjan(c *Ctx) {
 				if l.Kind == "call" && l.Pol {
 					if cl, ok := l.Of.(*ssa.Call); ok && cl.Common().StaticCallee() != nil && p.InTarget(cl.Common().StaticCallee()) {
 						args := cl.Common().Args
-						if len(args) == 2 && args[0] == ssa.Value(acctP) && args[1] == lk.Index {
+						if len(args) == 2 && bind(args[0]) == ssa.Value(acctP) && args[1] == lk.Index {
 							// and not unvisited
 							for _, l2 := range lits {
 								if l2.Kind == "cmp" && l2.Op == token.EQL && !l2.Pol {
@@ -267,6 +326,7 @@ func runTarjan(c *Ctx) {
 			}
 		}
 	}
+	recOK, stackOK = recOK && stepOK, stackOK && stepOK
 	c.R.Add("TARJAN", "worker|unvisited-successor-recursion-folds-low-link", wn, p.Pos(w.Pos()), recOK,
 		"for an unvisited successor (index 0) the worker recurses and folds the returned low-link into its own with min", fmt.Sprintf("ok=%v", recOK))
 	c.R.Add("TARJAN", "worker|on-stack-successor-folds-index", wn, p.Pos(w.Pos()), stackOK,
